@@ -109,8 +109,11 @@ def run(gaf_path, gfa=None, output=None, index=None, nodes=[], regions=[], forma
             assert nodes == []
             nodes = get_unstable(regions, ind)
         # a record that visits a node more than once is listed once per visit in the index
-        offsets = list(set(ind[ind_dict[nodes[0]]]))
-        for nd in nodes[1:]:
+        offsets = []
+        for nd in nodes:
+            # nodes without any alignment are not in the index and contribute nothing
+            if nd not in ind_dict:
+                continue
             # extracting all the lines that touches at least one of the nodes
             offsets = list(set(offsets) | set(ind[ind_dict[nd]]))
         offsets.sort()
